@@ -304,6 +304,74 @@ def typedIterNew (rc : RowCarrier) (specs : List CqlTy) (rows : Nat) : Except Tc
   | some e => .error e
   | none => .ok ⟨rc, specs, rows⟩
 
+/-! ### `deserialize` after `type_check`: the partial operations of the typed readers
+
+`DeserializeValue::deserialize` "can assume that the driver called `type_check`" (value.rs:55-63).  The typed
+readers destructure the column type AGAIN and `unreachable!` / `expect` when it does not have the kind they need:
+`Vec::deserialize` (1088-1103 "Should be prevented by typecheck"), `ListlikeIterator::deserialize` (995-1007),
+`VectorIterator::deserialize` (1237-1247), `MapIterator::deserialize` (1453-1463), `UdtIterator::deserialize`
+(1805-1815), the tuple impls (`ensure_tuple_type(..).expect("Type check should have prevented this!")` 1655-1658),
+and at row level the tuple `DeserializeRow::deserialize` (row.rs:266-290: `unwrap_or_else(|| unreachable!(..))`
+for a missing column, `assert!(row.next().is_none())` for an excess one).  `deserPanics c t` says whether decoding a
+NON-NULL cell of column type `t` into carrier `c` can reach one of those sites (at any depth: the readers hand the
+element / key / value / field types down).  The byte-level partial operations (`split_at`, vint arithmetic) are
+C08's subject (`Model/C08Value.lean`), the leaves return errors, never panic (`ensure_exact_length`, `from_utf8`). -/
+
+mutual
+def deserPanics : Carrier → CqlTy → Bool
+  | .scalar _, _ => false
+  | .unset, _ => false
+  | .maybeUnset _, _ => false
+  | .opt c, t => deserPanics c t
+  | .maybeEmpty c, t => deserPanics c t
+  | .vec c, t => match t with
+    | .list e => deserPanics c e
+    | .set e => deserPanics c e
+    | .vector e _ => deserPanics c e
+    | _ => true
+  | .hashSet c, t => match t with          -- through `ListlikeIterator::deserialize`: list or set
+    | .list e => deserPanics c e
+    | .set e => deserPanics c e
+    | _ => true
+  | .btreeSet c, t => match t with
+    | .list e => deserPanics c e
+    | .set e => deserPanics c e
+    | _ => true
+  | .listIter c, t => match t with
+    | .list e => deserPanics c e
+    | .set e => deserPanics c e
+    | _ => true
+  | .vecIter c, t => match t with
+    | .vector e _ => deserPanics c e
+    | _ => true
+  | .hashMap k v, t => match t with
+    | .map kt vt => deserPanics k kt || deserPanics v vt
+    | _ => true
+  | .btreeMap k v, t => match t with
+    | .map kt vt => deserPanics k kt || deserPanics v vt
+    | _ => true
+  | .mapIter k v, t => match t with
+    | .map kt vt => deserPanics k kt || deserPanics v vt
+    | _ => true
+  | .tuple cs, t => match t with
+    | .tuple ts => decide (cs.length ≠ ts.length) || deserPanicsZip cs ts
+    | _ => true
+  | .udtIter, t => match t with
+    | .udt _ _ _ => false
+    | _ => true
+  | .dyn, _ => false
+  | .raw, _ => false
+def deserPanicsZip : List Carrier → List CqlTy → Bool
+  | c :: cs, t :: ts => deserPanics c t || deserPanicsZip cs ts
+  | _, _ => false
+end
+
+/-- `TypedRowIterator::next` → `<R as DeserializeRow>::deserialize(column_iterator)` for a tuple row type over a
+row with `specs.length` columns: a missing or excess column, or a column whose reader panics. -/
+def rowDecodePanics : RowCarrier → List CqlTy → Bool
+  | .untyped, _ => false
+  | .cols cs, specs => decide (cs.length ≠ specs.length) || deserPanicsZip cs specs
+
 /-! ### the pager's typed stream (`scylla/src/client/pager.rs`)
 
 `QueryPager::rows_stream::<T>()` → `TypedRowStream::new` type-checks `T` against the column specs of the page the
